@@ -352,6 +352,7 @@ struct options
     std::string smt2_dir;
     unsigned timeout_ms = 60000;
     std::size_t max_paths = 200000;
+    unsigned split_parts = 1, split_part = 0, split_depth = 10;
     double budget_s = 1e9;
 };
 
@@ -369,6 +370,9 @@ inline options parse_args(int argc, char** argv)
         else if (a == "--timeout-ms") o.timeout_ms = static_cast<unsigned>(std::stoul(next()));
         else if (a == "--max-paths") o.max_paths = std::stoul(next());
         else if (a == "--budget-s") o.budget_s = std::stod(next());
+        else if (a == "--split") o.split_parts = static_cast<unsigned>(std::stoul(next()));
+        else if (a == "--part") o.split_part = static_cast<unsigned>(std::stoul(next()));
+        else if (a == "--split-depth") o.split_depth = static_cast<unsigned>(std::stoul(next()));
         else if (a == "--cfg")
         {
             std::string s = next();
@@ -438,6 +442,7 @@ int run_harness(std::string const& harness_name, options const& opt, BodyS body_
 
     engine& g = E();
     g.timeout_ms = opt.timeout_ms;
+    g.split_parts = opt.split_parts; g.split_part = opt.split_part; g.split_depth = opt.split_depth;
     results res;
     H<real> h;
     h.cfg = opt.cfg;
@@ -452,6 +457,7 @@ int run_harness(std::string const& harness_name, options const& opt, BodyS body_
         canon_table<real>::table().clear();
         canon_table<real>::draws().clear();
         bool finished = false;
+        results const snapshot = (g.split_parts > 1 && g.split_part != 0) ? res : results();
         try
         {
             trap::armed() = true;
@@ -472,11 +478,18 @@ int run_harness(std::string const& harness_name, options const& opt, BodyS body_
         }
         catch (abort_path const& ap)
         {
-            ++res.abort_reasons[ap.why];
-            if (ap.why == "infeasible") ++res.aborted_infeasible;
+            if (ap.why != "other-part") ++res.abort_reasons[ap.why];
+            if (ap.why == "other-part") {}
+            else if (ap.why == "infeasible") ++res.aborted_infeasible;
             else if (ap.why == "unknown") ++res.aborted_unknown;
             else if (ap.why.compare(0, 3, "ub:") == 0) ++res.aborted_ub;
             else ++res.aborted_cap;
+        }
+        if (g.split_parts > 1 && g.split_part != 0 && g.trace.size() < g.split_depth)
+        {
+            // short paths (fewer decisions than the split depth) belong to part 0
+            res = snapshot;
+            finished = false;
         }
         if (finished)
         {
